@@ -169,11 +169,17 @@ class Dataset:
                              "dataspace")
         k = _fixidx(k)
         if isinstance(k, tuple) and len(k) == 0 or k is Ellipsis:
-            return _out(a.copy())
+            return self._typed(_out(a.copy()))
         _check_fancy(k, a.shape)
         r = a[k]
         if isinstance(r, _np.ndarray):
-            return _out(r.copy())
+            return self._typed(_out(r.copy()))
+        return r
+
+    def _typed(self, r):
+        if isinstance(r, SArr) and self._n.dtype is not None and \
+                _np.dtype(self._n.dtype).kind in 'iu':
+            r.decl = _np.dtype(self._n.dtype)
         return r
 
     def __setitem__(self, k, v):
